@@ -69,15 +69,48 @@ def _directly_asserted_variables(test_case: tc.TestCase) -> set[str]:
     """
     protected: set[str] = set()
     for statement in test_case.statements():
+        if not _carries_reference_assertion(statement):
+            continue
         for assertion in statement.assertions:
-            if isinstance(assertion, ExceptionAssertion):
-                continue
-            if isinstance(assertion, ReferenceAssertion):
-                source = assertion.source
-                # In the libcst representation the source is the variable name.
-                if isinstance(source, str):
-                    protected.add(source)
+            if isinstance(assertion, ReferenceAssertion) and isinstance(assertion.source, str):
+                # The source is a variable name or a dotted path rooted at one
+                # (e.g. ``var_0.field``); the root is what has to stay bound.
+                protected.add(assertion.source.split(".", 1)[0])
+        # The statement the oracle is attached to has to stay as well (its source may
+        # be a field of the module or of a variable bound earlier), and so does
+        # everything it reads.
+        if statement.bound_variable is not None:
+            protected.add(statement.bound_variable)
+        protected.update(statement.used_variables())
     return protected
+
+
+def _carries_reference_assertion(statement: tc.Statement) -> bool:
+    """Whether a reference assertion is attached to the statement.
+
+    Args:
+        statement: The statement to inspect.
+
+    Returns:
+        True, if removing the statement would remove a regression oracle.
+    """
+    return any(
+        isinstance(assertion, ReferenceAssertion) and isinstance(assertion.source, str)
+        for assertion in statement.assertions
+    )
+
+
+def _is_protected(statement: tc.Statement, protected: set[str]) -> bool:
+    """Whether minimization must keep the statement.
+
+    Args:
+        statement: The statement to inspect.
+        protected: The protected variable names of its test case.
+
+    Returns:
+        True, if the statement binds a protected variable or carries an oracle.
+    """
+    return statement.bound_variable in protected or _carries_reference_assertion(statement)
 
 
 def _add_backward_dependencies(test_case: tc.TestCase, protected: set[str]) -> None:
@@ -286,7 +319,7 @@ class ForwardIterativeMinimizationVisitor(IterativeMinimizationVisitor):
             i = 0
             while i < test_case.size():
                 statement = test_case.get_statement(i)
-                if statement.bound_variable in protected:
+                if _is_protected(statement, protected):
                     i += 1
                     continue
                 test_clone = test_case.clone()
@@ -319,7 +352,7 @@ class BackwardIterativeMinimizationVisitor(IterativeMinimizationVisitor):
             i = test_case.size() - 1
             while i >= 0:
                 statement = test_case.get_statement(i)
-                if statement.bound_variable in protected:
+                if _is_protected(statement, protected):
                     i -= 1
                     continue
                 test_clone = test_case.clone()
@@ -500,7 +533,7 @@ class CombinedMinimizationVisitor(cv.ChromosomeVisitor):
                 protected = get_assertion_protected_variables(test_case)
                 i = 0
                 while i < test_case.size():
-                    if test_case.get_statement(i).bound_variable in protected:
+                    if _is_protected(test_case.get_statement(i), protected):
                         i += 1
                         continue
                     test_suite_clone = chromosome.clone()
